@@ -47,8 +47,11 @@ func (r *Run) ExecTx(tx *Tx) *TxResult {
 		r.InfraErr = fmt.Errorf("cannot decode recorded msg: %w", err)
 		return &TxResult{BuildErr: err.Error()}
 	}
+	// the monitors see the messages with every account address in its canonical spelling (an all-upper-case bech32
+	// string names the same account): oracles reason about accounts, the chain gets the message as it was written
+	seen := CanonMsgs(msgs)
 	for _, m := range r.Monitors {
-		m.BeforeTx(r, tx, msgs)
+		m.BeforeTx(r, tx, seen)
 	}
 	res := &TxResult{}
 	switch tx.Route {
@@ -223,7 +226,7 @@ func (r *Run) ExecTx(tx *Tx) *TxResult {
 	}
 	r.logf("  tx %s route=%s code=%d/%s gas=%d ev=%s", tx.Signer, tx.Route, res.Code, res.Codespace, res.GasUsed, DigestEvents(res.Events))
 	for _, m := range r.Monitors {
-		m.AfterTx(r, tx, msgs, res)
+		m.AfterTx(r, tx, seen, res)
 	}
 	return res
 }
